@@ -129,7 +129,7 @@ example (σ : Subst.TMap) : FoldIdle (fun n => n.op.isQuantifier) (Subst.substG 
 /-! ### `TheoryOracle`: mutable `Theory` objects behind a long-lived memo (heap model `Impl/TheoryHeap.lean`)
 
     The memo maps nodes to *addresses*; every `walk_*` rule is written with the objects it creates (`copy`, `combine`,
-    `set_*`, `Theory()`: new objects), the attribute assignments it makes in place (`walk_function`, `walk_str_int`,
+    `set_*`, `Theory()`: new objects), the attribute assignments it makes in place (`walk_function`,
     `walk_bv_tonatural`, `walk_array_value`, `walk_constant`) and the object it returns.  `run hist St.init` is the
     state after an arbitrary history of `get_theory` calls on a new oracle.  The specification is c13's recursive
     `TheoryOracle.theoryOf`. -/
@@ -138,8 +138,8 @@ example (σ : Subst.TMap) : FoldIdle (fun n => n.op.isQuantifier) (Subst.substG 
 theorem theory_memo_ok (hist : List Term) : TheoryHeap.MemoOK (TheoryHeap.run hist TheoryHeap.St.init) :=
   TheoryHeap.theory_memo_ok hist
 
-/-- no two memoised nodes share an object (`Shaped`: quantifiers bind a variable, no one-argument division: every
-    node the formula manager can build) -/
+/-- no two memoised nodes share an object (`Shaped`: every quantifier binds at least one variable, as every
+    quantifier that the formula manager builds) -/
 theorem theory_no_alias (hist : List Term) (hsh : ∀ t ∈ hist, TheoryHeap.Shaped t) :
     TheoryHeap.NoAlias (TheoryHeap.run hist TheoryHeap.St.init) :=
   TheoryHeap.theory_no_alias hist hsh
